@@ -224,7 +224,8 @@ export function snapshot(ge, parent, tr, opts = {}) {
 
 function chanView(c) {
   const o = {}
-  for (const k of ['c', 'y', 'i', 's']) if (k in c) o[k] = c[k]
+  // (`s` — R.s, the legacy slot setter used by binding-map updaters — is observed through node.slot instead)
+  for (const k of ['c', 'y', 'i']) if (k in c) o[k] = c[k]
   for (const k of ['r', 'd', 'm', 'v', 'p', 'wl', 'a', 'l']) if (Object.keys(c[k]).length) o[k] = { ...c[k] }
   return o
 }
